@@ -1244,6 +1244,16 @@ fn combine_two_leaky_ands(
 }
 
 #[cfg(feature = "__verif")]
+pub(crate) fn combine_bucket_v(
+    i: usize,
+    n: usize,
+    bucket: Vec<(&Share, &Share, &Share)>,
+    d_vec: Vec<bool>,
+) -> Result<(Share, Share, Share), Error> {
+    combine_bucket(i, n, bucket, d_vec)
+}
+
+#[cfg(feature = "__verif")]
 pub(crate) fn combine_two_leaky_ands_v(
     i: usize,
     n: usize,
